@@ -27,6 +27,7 @@ Record hbase := { scid : Z; src_dest : Z; vcid : Z; map_id : Z }.
 (* _pack_common_header(truncated): range guard, then four bytearray.append *)
 Definition pack_common (b : hbase) (truncated : Z) : res bytes :=
   if (scid b >? 2 ^ 16 - 1) || (vcid b >? 2 ^ 6 - 1) || (map_id b >? 2 ^ 4 - 1)
+     || (scid b <? 0) || (vcid b <? 0) || (map_id b <? 0)
   then Err EValue else
   do p <- ba_append [] (Z.lor (Z.shiftl USLP_VERSION_NUMBER 4) (Z.land (Z.shiftr (scid b) 12) 15));
   do p <- ba_append p (Z.land (Z.shiftr (scid b) 4) 255);
